@@ -60,6 +60,7 @@ def run_sequence(case, on_step=None):
     plus_clean = True          # no step since the collapse created labels that uncollapse must not split
     applied = []
     changed_attachment = False
+    unsplit_bag = None         # label multiset before the last boyd_split (kept up to date over label-preserving steps)
     for op in case["ops"]:
         prefix = "C04/" + op
         params = {}
@@ -116,6 +117,9 @@ def run_sequence(case, on_step=None):
                 exp[node["l"]] += len(M.blocks(M.nums(node)))
         elif fn == "raising":
             exp = bag - Counter(n["l"] for n in M.constituents(before) if n is not before and n.get("split") and not n.get("hb"))
+            if unsplit_bag is not None and got != unsplit_bag:
+                raise violation(prefix + "/not-one-node-per-constituent", "after boyd_split + raising the labels are %r, before splitting %r"
+                                % (sorted(got.items()), sorted(unsplit_bag.items())))
         elif fn == "binarize":
             extra = got - bag
             if (bag - got) or any(not lab.startswith("@") for lab in extra):
@@ -138,6 +142,12 @@ def run_sequence(case, on_step=None):
         if result.data.get("sid") != case["tree"]["sid"]:
             raise violation(prefix + "/sid-lost", "%r" % (result.data.get("sid"),))
         # ---- bookkeeping
+        if fn == "boyd_split":
+            unsplit_bag = bag
+        elif fn == "add_topnode" and unsplit_bag is not None:
+            unsplit_bag = unsplit_bag + Counter(["TOP"])
+        elif fn in ("binarize", "collapse_unary_chains", "uncollapse_unary_chains", "raising"):
+            unsplit_bag = None
         if fn == "collapse_unary_chains":
             collapsed = any("+" in (n["p"] if M.is_tok(n) else n["l"]) for n in M.preorder(cur))
             plus_clean = True
